@@ -304,17 +304,19 @@ impl GenerationPass for AvailableValuePass {
                         // The callee is free to use everything below the stack pointer
                         let curr_stack = node.reg_values_in().stack_offset();
                         // ... and the calling convention says nothing about the
-                        // CSRs: the callee may write them, and whatever they point to
-                        map = retain_values(map, |location, value| match (location, curr_stack) {
-                            (MemoryLocation::StackOffset(slot), Some(curr)) => {
-                                *slot >= curr && !matches!(value, AvailableValue::ValueInCsr(_))
-                            }
+                        // CSRs: a callee that works with CSRs may write them, and
+                        // whatever they point to. One that names no CSR cannot.
+                        let csrs_are_safe = node
+                            .calls_to_from_cfg(cfg)
+                            .is_some_and(|(callee, _)| !touches_csrs(cfg, &callee, &mut Vec::new()));
+                        map = retain_values(map, |location, _| match (location, curr_stack) {
+                            (MemoryLocation::StackOffset(slot), Some(curr)) => *slot >= curr,
                             (MemoryLocation::StackOffset(_), None) => false,
                             (
                                 MemoryLocation::CsrRegister(_)
                                 | MemoryLocation::CsrRegisterValueOffset(..),
                                 _,
-                            ) => false,
+                            ) => csrs_are_safe,
                         });
                     }
                     map
@@ -352,8 +354,11 @@ impl GenerationPass for AvailableValuePass {
                 if node.calls_to().is_some() {
                     redefined |= Register::return_addr_set();
                 }
-                // (a callee may write the words behind any pointer)
-                let memory_may_change = node.calls_to().is_some();
+                // (a callee that works with CSRs may write the words behind them)
+                let memory_may_change = node.calls_to().is_some()
+                    && !node
+                        .calls_to_from_cfg(cfg)
+                        .is_some_and(|(callee, _)| !touches_csrs(cfg, &callee, &mut Vec::new()));
                 let still_valid = |value: &AvailableValue| {
                     !matches!(value, AvailableValue::RegisterWithScalar(reg, _) if redefined.contains(reg))
                         && !(memory_may_change && matches!(value, AvailableValue::MemoryAtCsr(..)))
@@ -404,6 +409,27 @@ fn retain_values<T: PartialEq + Eq + Hash>(
         }
     }
     kept
+}
+
+/// Does a function, or a function it calls, contain an instruction that names
+/// a CSR? (A call of something that is no known function counts as one.)
+fn touches_csrs(
+    cfg: &crate::cfg::Cfg,
+    function: &Rc<crate::cfg::Function>,
+    seen: &mut Vec<Rc<crate::cfg::Function>>,
+) -> bool {
+    if seen.iter().any(|f| Rc::ptr_eq(f, function)) {
+        return false;
+    }
+    seen.push(Rc::clone(function));
+    let nodes = function.nodes().clone();
+    nodes.iter().any(|node| {
+        matches!(node.node(), ParserNode::Csr(_) | ParserNode::CsrI(_))
+            || (node.calls_to().is_some()
+                && node
+                    .calls_to_from_cfg(cfg)
+                    .is_none_or(|(callee, _)| touches_csrs(cfg, &callee, seen)))
+    })
 }
 
 /// The CSR an instruction writes, and whether the new content is unknown (a
